@@ -316,6 +316,9 @@ class Interp:
             return a is b
         if isinstance(a, Opaque) and isinstance(b, Opaque):
             return a.t == b.t
+        if isinstance(a, Opaque) and isinstance(b, str) or isinstance(b, Opaque) and isinstance(a, str):
+            o, lit = (a, b) if isinstance(a, Opaque) else (b, a)
+            return o.t == str_const(self.ctx, lit)
         if isinstance(a, Sym) or isinstance(b, Sym):
             # kinds differ (e.g. bytes vs int): python == is False
             ka, kb = _kind(a), _kind(b)
@@ -811,6 +814,10 @@ class Interp:
             cls = obj.cls
             if isinstance(cls, ExtClass):
                 m = cls.methods.get(name)
+                if m is None and getattr(cls, "dynamic", None) is not None:
+                    m = cls.dynamic(name)
+                    if m is None:
+                        raise PyRaise(mk_exc(AttributeError, name))
                 if m is None:
                     raise Unsupported(f"external {cls.__name__}.{name} has no assumed contract")
                 return BoundMethod(m, obj, f"{cls.__name__}.{name}", cls)
@@ -902,6 +909,7 @@ class Interp:
                 raise PyRaise(mk_exc(dataclasses.FrozenInstanceError, f"cannot assign to field '{name}'"))
             if self.frame_check is not None:
                 self.frame_check(obj, name)
+            self._attach_promise(obj, name, value)
             obj.fields[name] = value
             return
         if isinstance(obj, Sym):
@@ -910,6 +918,19 @@ class Interp:
             builtins.setattr(obj, name, value)
             return
         raise Unsupported(f"setattr on concrete {type(obj).__name__} in symbolic mode")
+
+    def _attach_promise(self, obj, name, value):
+        """A future stored in a field whose declared type carries a completion promise takes it over."""
+        spec = getattr(self, "self_spec", None)
+        if spec is None or not isinstance(value, SFuture) or "promise" in value.ghost:
+            return
+        if obj is not getattr(self, "self_obj", None):
+            return
+        ty = spec.fields.get(name)
+        inner = getattr(ty, "inner", ty)
+        pr = getattr(inner, "promise", None)
+        if pr is not None:
+            value.ghost["promise"] = pr
 
     frame_check = None
     frame_check_map = None
@@ -969,6 +990,8 @@ class Interp:
                 if not self.ctx.branch(ok):
                     raise PyRaise(mk_exc(IndexError, "index out of range"))
             return SInt(bv2int(t[i]))
+        if isinstance(obj, UnpackableResult):
+            return obj.item(self, idx)
         if isinstance(obj, SDict):
             return self.sdict_get(obj, idx, raise_keyerror=True)
         if isinstance(obj, _smap().SMap):
@@ -1191,6 +1214,13 @@ class Interp:
                     val = self.eval(v.value, env)
                 except PyRaise:
                     raise
+                except Unsupported:
+                    # the text of messages is dropped (DESIGN 2.1); a field the engine cannot evaluate
+                    # is assumed not to raise
+                    self.ctx.dropped.add("f-string field outside the value model (assumed not to raise)")
+                    sym = True
+                    parts.append("{?}")
+                    continue
                 if isinstance(val, (Sym, SObj, SFuture)) or _has_sym(val):
                     sym = True
                     parts.append("{?}")
@@ -1314,6 +1344,8 @@ class Interp:
         need a loop contract and are handled by the loop rule instead."""
         if isinstance(v, LazyGen):
             return v.items()
+        if isinstance(v, UnpackableResult):
+            return list(v.items)
         if isinstance(v, SOpt):
             v = self.unwrap_opt(v, "iterable")
         if isinstance(v, SBytes):
@@ -1738,6 +1770,20 @@ class Interp:
 
 
 _TABLES = {}
+
+
+def str_const(ctx, lit):
+    """Uninterpreted constant standing for a string literal; distinct literals are distinct."""
+    import hashlib
+
+    c = z3.Const("str!" + hashlib.sha256(lit.encode()).hexdigest()[:10] + "!" + "".join(ch for ch in lit[:20] if ch.isalnum()), OpaqueSort)
+    seen = ctx.ghost.setdefault("__str_literals__", {})
+    if lit not in seen:
+        for other, oc in seen.items():
+            ctx.pc.append(oc != c)
+            ctx.solver.add(oc != c)
+        seen[lit] = c
+    return c
 
 
 def table_select(ctx, values, idx_term):
